@@ -182,7 +182,8 @@ def proj_lsp(data):
     toks = sx_tokens(data)
     tree = sx_parse(toks)
     out = {}
-    out["tags"] = _multiset(_head(n) or b"()" for n in sx_walk(tree))
+    # the fields of a struct are lists headed by `name-slot': the slot number is not part of the tag
+    out["tags"] = _multiset(_lsp_strip(_head(n) or b"()") for n in sx_walk(tree))
     out["declare"] = b"\n".join(sx_ser(y) for y in tree if _head(y) in (b"declare-prog", b"declare-type", b"defspecials", b"in-package"))
     out["structs"] = b"\n".join(sx_ser(lsp_canon(y)) for y in tree if _head(y) in (b"|DDecl|", b"DDecl"))
     lits = []
